@@ -304,6 +304,74 @@ theorem admin_delete_topic (r : Registry) (t : Name) (ht : t ≠ star) :
   intro t' hne
   simp [hne]
 
+/-! ## 3. Concurrency: where handler calls are NOT atomic
+
+The theorems above treat one handler call as one step. In the code each `RegistrationDB` method
+is one critical section, and three handlers are two sections each. The decompositions are
+exact (`…_is_two_sections`), and two interleavings end in a state that NO serial order of the
+two calls reaches — i.e. "exactly what a plain registry predicts" is false for overlapping
+calls (known findings `race:unregister-gc-vs-register`, `race:register-vs-topic-delete`,
+reproduced on the real daemon by harness/e4 `TestVerifE4Races`). -/
+
+theorem unregister_is_two_sections (db : DB) (p : Nat) (t c : Name) (hc : c ≠ []) :
+    unregisterDB db p ⟨t, c⟩ = unregChanStep2 (unregChanStep1 db t c p).1 t c (unregChanStep1 db t c p).2 := by
+  simp only [unregisterDB, hc, ne_eq, not_false_eq_true, if_true, removeAndGC, unregChanStep1, unregChanStep2]
+  rfl
+
+theorem register_is_two_sections (db : DB) (p : Nat) (t c : Name) (hc : c ≠ []) :
+    registerDB db p ⟨t, c⟩ = regStep2 (regStep1 db t c p) t p := by
+  simp [registerDB, hc, regStep1, regStep2]
+
+theorem deleteTopic_is_two_sections (db : DB) (t : Name) :
+    deleteTopicDB db t = delTopicStep2 (delTopicStep1 db t) t := rfl
+
+/-- "Overlapping handler calls behave like some serial order", for the pair
+UNREGISTER(a) ‖ REGISTER(b) on one channel, schedule a₁ b₁ a₂ b₂. -/
+def concurrent_unregister_register_linearizable : Prop :=
+  ∀ (db : DB) (a b : Nat) (t c : Name), a ≠ b → c ≠ [] →
+    let s1 := unregChanStep1 db t c a
+    let final := regStep2 (unregChanStep2 (regStep1 s1.1 t c b) t c s1.2) t b
+    (∀ k q, getP final k q = getP (registerDB (unregisterDB db a ⟨t, c⟩) b ⟨t, c⟩) k q) ∨
+    (∀ k q, getP final k q = getP (unregisterDB (registerDB db b ⟨t, c⟩) a ⟨t, c⟩) k q)
+
+/-- FALSE: `a` is the last producer of an `#ephemeral` channel and unregisters; `b`'s
+`AddProducer` lands between `a`'s `RemoveProducer` (left = 0) and `RemoveRegistration`: the key
+is deleted together with `b`'s registration, although `b` was answered OK. Both serial orders
+keep `b` registered. -/
+theorem concurrent_unregister_register_linearizable_false :
+    ¬ concurrent_unregister_register_linearizable := by
+  intro h
+  have := h [(chanKey [116] ([100] ++ ephSuffix), [(1, fresh)]), (topicKey [116], [(1, fresh)])] 1 2 [116]
+    ([100] ++ ephSuffix) (by decide) (by decide)
+  cases this with
+  | inl h1 => exact absurd (h1 (chanKey [116] ([100] ++ ephSuffix)) 2) (by decide)
+  | inr h2 => exact absurd (h2 (chanKey [116] ([100] ++ ephSuffix)) 2) (by decide)
+
+/-- Same for REGISTER(p) ‖ /topic/delete, schedule p₁ d₁ d₂ p₂. -/
+def concurrent_register_delete_linearizable : Prop :=
+  ∀ (db : DB) (p : Nat) (t c : Name), c ≠ [] → t ≠ star →
+    let final := regStep2 (delTopicStep2 (delTopicStep1 (regStep1 db t c p) t) t) t p
+    (∀ k, has final k = has (deleteTopicDB (registerDB db p ⟨t, c⟩) t) k) ∨
+    (∀ k, has final k = has (registerDB (deleteTopicDB db t) p ⟨t, c⟩) k)
+
+/-- FALSE: the topic ends up registered without the channel that was registered with it. -/
+theorem concurrent_register_delete_linearizable_false : ¬ concurrent_register_delete_linearizable := by
+  intro h
+  have := h [] 1 [116] [99] (by decide) (by decide)
+  cases this with
+  | inl h1 => exact absurd (h1 (topicKey [116])) (by decide)
+  | inr h2 => exact absurd (h2 (chanKey [116] [99])) (by decide)
+
+/-- The provable part: when the two calls do not overlap (any serial order) the refinement
+theorems apply — `refines_run` is exactly that statement for histories of any length. With
+`RemoveProducer`+`RemoveRegistration` in ONE critical section (fixes/F12) the first schedule
+does not exist: UNREGISTER is then a single step, as in `step`. -/
+theorem concurrent_partial_serial (r : Registry) (op₁ op₂ : Op)
+    (h₁ : op₁.modelled = true) (h₂ : op₂.modelled = true) :
+    abs (run r [op₁, op₂]) = ((abs r).step op₁).step op₂ := by
+  simp only [run]
+  rw [abs_step _ op₂ h₂, abs_step r op₁ h₁]
+
 /-! ## Non-vacuity -/
 
 section Examples
